@@ -675,6 +675,8 @@ class Machine:
         m = re.match(r'CopyForDeref\((.*)\)$', rhs)
         if m:
             return self.get(st, fid, m.group(1))
+        if rhs.startswith('no_retag '):
+            rhs = rhs[len('no_retag '):]
         if rhs.startswith(('copy ', 'move ', 'const ')):
             return self.operand(st, fid, rhs)
         if rhs.startswith('{closure@'):
